@@ -514,8 +514,8 @@ def _receive_cer(ctx: Ctx, model, nc, P, K):
         # 2001 and ready go together: on every path from the 2001 store to the return the
         # connection is assigned to its peer and then flagged ready ...
         after_n = [d for l, d in n.succ if l not in ("exc", "raise")]
-        if not flags or not assigns or g.exit in g.reach(after_n, normal_blocked=flags) \
-                or not g.dominated(flags[0], assigns):
+        if not flags or not assigns or not g.dominated(flags[0], assigns) or not (
+                g.dominated(n, flags) or g.exit not in g.reach(after_n, normal_blocked=flags)):
             ctx.fail(cons + "#ready", g.loc(n), "the 2001 CEA is sent without the connection being "
                      "assigned to its peer and flagged ready")
         # ... and only after the CEA has been queued: the ready flag releases application
